@@ -1,5 +1,5 @@
 # replay of a bounded stand-in violation (C14): re-run native/c14_io.py
 import sys
-print("blackbird measured-parameter-two-digit-mode: command 2 (Xgate): parameter 0 ('sym', ['q11'], ['MeasuredParameter'], (0.37+0j)) loaded as ('sym', ['q1'], ['MeasuredParameter'], (0.37+0j))")
+print('generate_code Catstate: generated code rebuilds a different program: command 0 (Catstate): parameter 3 (\'str\', \'complex\') loaded as (\'other\', "<class \'complex\'>")')
 print('REPLAY-VIOLATION')
 sys.exit(1)
